@@ -10,6 +10,7 @@ import (
 	"strconv"
 	"strings"
 	"sync"
+	"time"
 
 	jsonrpc "github.com/filecoin-project/go-jsonrpc"
 
@@ -62,9 +63,12 @@ func (a *API) enter(ctx context.Context, tok int) *Tok {
 	t.Conns = append(t.Conns, connOf(ctx))
 	t.HCtx = append(t.HCtx, ctx)
 	t.HStart = append(t.HStart, a.e.S.Step())
-	hold := t.Hold
+	hold, sl := t.Hold, t.SleepNs
 	t.mu.Unlock()
 	simrt.Rec("hstart", strconv.Itoa(tok), connOf(ctx), 0)
+	if sl > 0 {
+		time.Sleep(time.Duration(sl))
+	}
 	if hold {
 		simrt.Yield("handler-" + strconv.Itoa(tok))
 	}
@@ -155,7 +159,11 @@ func (a *API) Sub(ctx context.Context, tok int) (<-chan int, error) {
 	ch := make(chan int)
 	n := t.N
 	a.e.S.Go("prod-"+strconv.Itoa(tok), func() {
+		gap := time.Duration(t.GapNs)
 		for k := 0; k < n; k++ {
+			if gap > 0 {
+				time.Sleep(gap)
+			}
 			simrt.Yield("produce")
 			select {
 			case <-ctx.Done():
